@@ -9,6 +9,7 @@ PID = "C09"
 SCALES = {"K": ["K", "kelvin", "kelvins"], "C": ["°C", "celsius"], "F": ["°F", "fahrenheit"]}
 KEY = {"K": "Kelvin", "C": "D:de39ff06", "F": "D:3a824baa"}
 SLOPE = {"K": F(1), "C": F(1), "F": F(5, 9)}
+PFX = [("m", -3), ("k", 3), ("c", -2), ("d", -1), ("M", 6), ("n", -9), ("da", 1), ("h", 2)]
 RULE = ("(a) every chain x S0 to S1 ... to Sn (n <= 4, all 9+27+81+243 shapes over kelvin/°C/°F incl. repeated scales, several spellings "
         "of each scale) must equal the defining affine formulas K = C + 273.15, C = (F - 32)*5/9 exactly, hence compose and invert; "
         "(b) conversions in which °C/°F appears squared, inverted or next to other units (x °C^2 to K^2, x m*°C to m*K, x K/s to °C/s, "
@@ -50,16 +51,26 @@ def shard(p):
     try:
         V = G.Vocab(d)
         nonk = [e for e in V.entries if e["dims"][4] == 0]
+        VT = G.Vocab(d, include_offset=True)
+        prefixed = {sc: [e for e in VT.entries if e["key"] == KEY[sc] and not e["bare"]] for sc in "KCF"}
         reqs, meta = [], []
         # (a) chains
         for chain in p["chains"]:
             for _ in range(p["reps"]):
                 xs, x = magnitude(rng)
                 words = [rng.choice(SCALES[s]) for s in chain]
+                # SI prefixes on the scales (C03: a prefix is exactly its power of ten): x m°C is x/1000 °C
+                pes = [0] * len(chain)
+                if rng.random() < 0.35:
+                    for i in range(len(chain)):
+                        if rng.random() < 0.6 and prefixed[chain[i]]:
+                            e = rng.choice(prefixed[chain[i]])      # only words the tool itself reads as (this scale, this prefix)
+                            words[i] = e["word"]
+                            pes[i] = e["prefix"]
                 q = "%s %s" % (xs, words[0]) + "".join(" to " + w for w in words[1:])
-                want = from_k(chain[-1], to_k(chain[0], x))
+                want = from_k(chain[-1], to_k(chain[0], x * F(10) ** pes[0])) / F(10) ** pes[-1]
                 reqs.append({"op": "query", "q": q})
-                meta.append(("chain", q, (want, KEY[chain[-1]]), len(chain) - 1, "".join(chain)))
+                meta.append(("chain", q, (want, KEY[chain[-1]], pes[-1]), len(chain) - 1, "".join(chain) + ("+prefix" if any(pes) else "")))
         # (b) compounds
         for _ in range(p["n_compound"]):
             xs, x = magnitude(rng)
@@ -126,14 +137,16 @@ def shard(p):
                 if kind == "chain":
                     acc.count("chains_len_%d" % weight)
                     acc.seen("chain_shapes", tag)
+                    if tag.endswith("+prefix"):
+                        acc.count("chains_with_prefixed_scales")
                     if len(items) != 1 or not oks:
-                        acc.violate("c09:chain-rejected:" + tag[:2], "%r gave %s" % (q, [it.get("err", {}).get("msg") for it in items]), case)
+                        acc.violate("c09:chain-rejected:" + tag[:2] + ("+prefix" if tag.endswith("+prefix") else ""), "%r gave %s" % (q, [it.get("err", {}).get("msg") for it in items]), case)
                         continue
                     got = G.si.frac(oks[0]["ok"]["v"])
                     parts = oks[0]["ok"]["u"]
                     if got != want[0]:
-                        acc.violate("c09:chain-wrong:%s>%s" % (tag[0], tag[-1]), "%r is %s, the defining formulas give %s" % (q, got, want[0]), case)
-                    elif parts != [[want[1], 1, 0]]:
+                        acc.violate("c09:chain-wrong:%s>%s%s" % (tag[0], tag.replace("+prefix", "")[-1], "+prefix" if tag.endswith("+prefix") else ""), "%r is %s, the defining formulas give %s" % (q, got, want[0]), case)
+                    elif parts != [[want[1], 1, want[2]]]:
                         acc.violate("c09:chain-unit", "%r came back in %s" % (q, parts), case)
                     else:
                         acc.sample({"query": q, "value": str(got)}, cap=1)
